@@ -60,6 +60,13 @@ type Args struct {
 	Overlap    []string // requests of a deterministic interleaving whose answer differs from the answer they get alone
 }
 
+func sentinelResult(ans string, leak []string) string {
+	if len(leak) > 0 {
+		return "foreign-state:" + strings.Join(leak, "+")
+	}
+	return ans[:3]
+}
+
 func class(err error) string {
 	if err != nil {
 		return "err"
@@ -222,6 +229,16 @@ var Ops = []Op{
 		a.Overlap = in.RefusedOverlap([]string{"noscope", "resptype", "prompt"}[a.Variant%3])
 		return fmt.Sprint(len(a.Overlap))
 	}, "op.Authorize"},
+	// ---- requests that the storage refuses with its SENTINEL *oidc.Error (one value for the process), both routers + token endpoint
+	{"op.Authorize.sentinel", "prov", func(w *World, in *Instance, a *Args) string {
+		return sentinelResult(in.SentinelRequest("provider", a.Variant%2 == 1))
+	}, "op.authorizeHandler$ret"},
+	{"op.LegacyServer.Authorize.sentinel", "prov", func(w *World, in *Instance, a *Args) string {
+		return sentinelResult(in.SentinelRequest("legacy", a.Variant%2 == 1))
+	}, "op.webServer.authorizeHandler"},
+	{"op.Exchange.sentinel", "prov", func(w *World, in *Instance, a *Args) string {
+		return sentinelResult(in.SentinelRequest("token", a.Variant%2 == 1))
+	}, "op.tokenHandler$ret"},
 	// ---- relying party: ONE handler value per instance serves every request
 	{"rp.AuthURLHandler.shared", "rp", func(w *World, in *Instance, a *Args) string { return in.Login() }, "rp.AuthURLHandler$ret"},
 	{"rp.AuthURLHandler.overlap", "rp", func(w *World, in *Instance, a *Args) string {
